@@ -484,16 +484,17 @@ CASES.append(dspeciesdt_grid_case(2, 1, True, "full", thorough_only=True))
 
 # ---------------------------------------------------------------------------
 # ODE right-hand side exported for external integrators
-def dxdtf_case(sub, prod, prop="C01"):
-    cid = "make_dxdtf/%d%d-%d%d" % (sub + prod)
+def dxdtf_case(sub, prod, prop="C01", E=1):
+    """E = 2: the single cell lies in either environment (symbolic index), the constants are those of that environment"""
+    cid = "make_dxdtf/%d%d-%d%d" % (sub + prod) + ("" if E == 1 else "/E%d" % E)
     P = prop + "/make_dxdtf"
 
     def run(api):
         R = api.mod("rdsystem")
         eq1 = "%d A + %d B -> %d C + %d A" % (sub + prod)
-        net = M.mk_network(api, S=3, E=1, reactions=[(eq1, "scalar", "scalar"), ("C -> B", "dict:e0", "dict:default")],
-                           species_units=False)
-        g = M.mk_grid(api, E=1, env_form="scalar", dims=(1, 1, 1))
+        net = M.mk_network(api, S=3, E=E, reactions=[(eq1, "scalar" if E == 1 else "dict:e0,default", "scalar"),
+                                                     ("C -> B", "dict:e0", "dict:default")], species_units=False)
+        g = M.mk_grid(api, E=E, env_form="scalar", dims=(1, 1, 1))
         flags = [api.int("flag%d" % k, 0, 1) for k in range(3)]
         system = R.RDSystem(net.obj, g.obj, chemostats=list(flags), units_system=M.mk_system(api, "sys"))
         out_us = M.mk_system(api, "out")
@@ -517,8 +518,8 @@ def dxdtf_case(sub, prod, prop="C01"):
         for r in range(2):
             kf, kr, rus = net.rk[r]
             nf, nr = sum(ssto[r]), sum(psto[r])
-            kf_si = env_si(api, kf, net.envs, 0, rus, k_dims(nf))
-            kr_si = env_si(api, kr, net.envs, 0, rus, k_dims(nr))
+            kf_si = env_si(api, kf, net.envs, g.env0, rus, k_dims(nf))
+            kr_si = env_si(api, kr, net.envs, g.env0, rus, k_dims(nr))
             net_rate = RL.rate(kf_si, V, xs, ssto[r]) - RL.rate(kr_si, V, xs, psto[r])
             for s in range(3):
                 law[s] = law[s] + (psto[r][s] - ssto[r][s]) * net_rate
@@ -573,6 +574,9 @@ def dstatedt_layout_case(api):
 
 for _s, _p in (((1, 1), (1, 0)), ((2, 0), (0, 1)), ((0, 0), (1, 1)), ((2, 1), (0, 0)), ((1, 3), (2, 2)), ((4, 0), (0, 3))):
     CASES.append(dxdtf_case(_s, _p))
+# the single cell in a second environment, constants given per environment with a 'default' fallback
+CASES.append(dxdtf_case((1, 1), (1, 0), E=2))
+CASES.append(dxdtf_case((2, 0), (0, 1), E=2))
 CASES.append(Case("make_dxdtf/multi-cell-refused", not_single_cell_case, functions=["RDSystem.make_dxdtf"], sym=False))
 CASES.append(Case("dstatedt/layout-bounded", dstatedt_layout_case, functions=["compute_dstatedt"], sym=False,
                   bounded="grids 1x1x1, 2x1x1, 2x2x1, 3x1x2 with 1-3 species, both chemostat modes (exhaustive over this list)"))
@@ -580,3 +584,14 @@ CASES.append(Case("dstatedt/layout-bounded", dstatedt_layout_case, functions=["c
 # engine side (real C++): constants derived by the engine and its deterministic reaction rate
 from props import C01_engine as _ENG
 CASES += _ENG.cases("C01")
+
+
+def LATE_CASES():
+    """"diffusive exchange with every neighbouring cell" in one step of the Euler engine on a grid: the engine's neighbour table
+    is the grid's relation for every shape and boundary setting (GetNeighborIndex / BuildMeshNeighbors contracts of C02)"""
+    try:
+        import z3 as _z3c
+    except ImportError:
+        return []
+    from props import C02 as _C02
+    return [_C02.build_neighbors_case()] + [_C02.pairing_grid_case(_n) for _n in range(6)]
